@@ -12,7 +12,7 @@ def entry(name, build, pre, outer, inner_idx, post, k, kinds, epi, epi_arg, kmax
     for f in pre:
         s += '  %s();\n' % f
     s += '  vp_unit_sel = %d; vp_pre_k = %d; vp_pre_enabled = 1;\n  %s();\n' % (inner_idx, k, outer)
-    if k < 0:
+    if k < 0 and kmax is not None:
         s += '  VP_ASSERT(vp_pre_count <= %d, "VP-BOUND: unit performs more atomic operations than there are preemption cubes");\n' % kmax
     s += '  vp_run_pending_unit();\n  vp_pre_enabled = 0;\n'
     for f in post:
@@ -23,12 +23,12 @@ def entry(name, build, pre, outer, inner_idx, post, k, kinds, epi, epi_arg, kmax
 
 def make_plan(pid, tier, seed, ctx, configs, meta):
     """configs: list of (build name, epilogue fn, epilogue arg, human name)"""
-    kmax = 10 if tier == 'quick' else 16
+    kmax = 17 if tier == 'quick' else 26   # atomic operations + plain accesses inside the combinators' Here() (sync_plain_funcs)
     modules = {'when': [('harness/C10_api.cpp', 'prod17')] + LIB}
     builds = sorted(set(c[0] for c in configs))
     units = UNITS + ['c10_build_' + b for b in builds]
     head = core.decls(units + ['c10_empty_and_single']) + 'void c10_prologue(uint32_t, uint32_t, uint32_t);\n' + \
-        'void c10_epilogue_any(uint32_t); void c10_epilogue_all(uint32_t); void c10_epilogue_join(uint32_t);\nvoid c09_tuple_first(uint32_t, uint32_t, uint32_t); void c09_tuple_none(uint32_t, uint32_t, uint32_t);\nvoid c10_any3_none(uint32_t, uint32_t, uint32_t, uint32_t); void c10_any3_first(uint32_t, uint32_t, uint32_t, uint32_t); void c10_any3_last(uint32_t, uint32_t, uint32_t, uint32_t);\n' + core.unit_selector(units)
+        'void c10_epilogue_any(uint32_t); void c10_epilogue_all(uint32_t); void c10_epilogue_join(uint32_t);\nvoid c09_shared_inputs(uint32_t); void c09_tuple_first(uint32_t, uint32_t, uint32_t); void c09_tuple_none(uint32_t, uint32_t, uint32_t);\nvoid c10_any3_none(uint32_t, uint32_t, uint32_t, uint32_t); void c10_any3_first(uint32_t, uint32_t, uint32_t, uint32_t); void c10_any3_last(uint32_t, uint32_t, uint32_t, uint32_t);\n' + core.unit_selector(units)
     queries = []
     first = [True]
 
@@ -44,6 +44,9 @@ def make_plan(pid, tier, seed, ctx, configs, meta):
                 add(nm, 'void %s(void) { vp_init(); c10_any3_%s(%d, %d, %d, %d); }\n' % (nm, pol, a, b, c, o),
                     'WhenAny<%s> static, 3 inputs (%s, %s, %s), sequential completion order #%d' % (pol, KIND[a], KIND[b], KIND[c], o))
     if pid == 'C09':
+        for form, what in enumerate(('the same SharedFuture given twice (static form)', 'SharedFutures [s1, s2, s1] in the dynamic form, completed in reverse order', 'unique + shared input (static form)')):
+            add('c09_shared_inputs_%d' % form, 'void c09_shared_inputs_%d(void) { vp_spurious_cfg = 0; vp_init(); c09_shared_inputs(%d); }\n' % (form, form),
+                'WhenAll<FirstFail> over shared inputs with a move-marking value type: %s; entries and the inputs afterwards' % what)
         for pol in ('first', 'none'):
             for k0, k1, order in itertools.product(range(3), range(3), range(3)):
                 if pol == 'first' and k0 != 0 and k1 == 0 and order == 1:
@@ -67,11 +70,13 @@ def make_plan(pid, tier, seed, ctx, configs, meta):
             else:
                 ks = [-1] + list(range(0, kmax))
             for (tag, pre, outer, inner, post) in scen:
+                cubes = tier != 'quick' or (kinds == (0, 1) and tag in ('s0s1', 's1s0', 'b_s0', 's0_b') or kinds == (1, 2) and tag in ('s0s1', 's1s0', 'rb_s1') or kinds == (2, 2) and tag == 's0s1')
                 for k in ks:
-                    if tier == 'quick' and k >= 0 and not (kinds in ((0, 1), (1, 2)) and tag in ('s0s1', 's1s0', 'rb_s1', 'b_s0', 's0_b') or kinds == (2, 2) and tag == 's0s1'):
+                    if k >= 0 and not cubes:
                         continue
                     name = '%s_%s_%s_%s_k%s' % (pid.lower(), b, kn, tag, 'none' if k < 0 else k)
-                    add(name, entry(name, bu, pre, outer, inner, post, k, kinds, epi, earg, kmax),
+                    # the covering bound is asserted (k = none) exactly where preemption cubes are enumerated; the other scenarios are sequential only
+                    add(name, entry(name, bu, pre, outer, inner, post, k, kinds, epi, earg, kmax if cubes else None),
                         'Tier A: %s, inputs (%s, %s); scenario %s (pre=%s outer=%s inner=%s post=%s), inner unit at atomic operation #%s of the outer'
                         % (human, KIND[kinds[0]], KIND[kinds[1]], tag, pre, outer, units[inner - 1], post, 'after the end' if k < 0 else k))
     meta = dict(meta)
@@ -83,4 +88,5 @@ def make_plan(pid, tier, seed, ctx, configs, meta):
     meta['assumptions'] += ['n = 2 inputs; three-party schedules and deeper interleavings are outside the claim', 'unique futures only (shared / mixed inputs not covered)',
                             '"first"/"last" are asserted exactly in the sequential-order queries and as membership + policy constraints in the preemption cubes']
     meta['functions_filter'] = r'(when|When|Any|All|Join|Combinator|c10_)'
-    return {'modules': modules, 'queries': queries, 'meta': meta, 'module_opts': {'when': {'nthreads': 2, 'heap': 2048, 'stack': 3072, 'preempt': True}}}
+    return {'modules': modules, 'queries': queries, 'meta': meta, 'module_opts': {'when': {'nthreads': 2, 'heap': 2048, 'stack': 3072, 'preempt': True}},
+            'ir2c_opts': {'when': {'sync_plain_funcs': r'^_ZNK?6yaclib4when.*(7ConsumeE|4HereE)'}}}
